@@ -36,7 +36,16 @@ type Job struct {
 	Crashed bool
 	Blocked bool
 	Panic   string
+	// Skipped: not run, because enough earlier cases of this run hung or crashed (circuit breaker)
+	Skipped bool
 }
+
+// circuit breaker: once this many cases of a run have hung or crashed the implementation is
+// evidently broken and what has been recorded suffices as failing input; every further hanging
+// case would cost its full deadline.
+var badJobs atomic.Int64
+
+const maxBadJobs = 6
 
 type wireCase struct {
 	ID  string          `json:"id"`
@@ -108,6 +117,12 @@ func firstPanicLine(stderr []byte) string {
 func runBatch(dir, prop, arg string, jobs []*Job, perCase time.Duration, env []string) error {
 	rest := jobs
 	for len(rest) > 0 {
+		if badJobs.Load() >= maxBadJobs {
+			for _, j := range rest {
+				j.Skipped = true
+			}
+			return nil
+		}
 		n := batchN.Add(1)
 		inPath := filepath.Join(dir, fmt.Sprintf("w%d.in", n))
 		outPath := filepath.Join(dir, fmt.Sprintf("w%d.out", n))
@@ -133,8 +148,36 @@ func runBatch(dir, prop, arg string, jobs []*Job, perCase time.Duration, env []s
 		var stderr bytes.Buffer
 		cmd.Stderr = &stderr
 		cmd.Stdout = &stderr
-		runErr := cmd.Run()
-		timedOut := ctx.Err() != nil
+		// progress watchdog: a case that hangs must cost its own budget, not the whole batch's —
+		// the worker is killed as soon as its output has not grown for perCase (+ start-up slack)
+		var stalled atomic.Bool
+		runErr := cmd.Start()
+		if runErr == nil {
+			waitC := make(chan error, 1)
+			go func() { waitC <- cmd.Wait() }()
+			last, lastSize := time.Now(), int64(-1)
+			tick := time.NewTicker(200 * time.Millisecond)
+		loop:
+			for {
+				select {
+				case runErr = <-waitC:
+					break loop
+				case <-tick.C:
+					var size int64
+					if st, err := os.Stat(outPath); err == nil {
+						size = st.Size()
+					}
+					if size != lastSize {
+						last, lastSize = time.Now(), size
+					} else if time.Since(last) > perCase+15*time.Second {
+						stalled.Store(true)
+						cmd.Process.Kill()
+					}
+				}
+			}
+			tick.Stop()
+		}
+		timedOut := ctx.Err() != nil || stalled.Load()
 		cancel()
 		done := 0
 		if f, err := os.Open(outPath); err == nil {
@@ -160,6 +203,7 @@ func runBatch(dir, prop, arg string, jobs []*Job, perCase time.Duration, env []s
 			return fmt.Errorf("worker exited normally after %d of %d cases: %s", done, len(rest), firstPanicLine(stderr.Bytes()))
 		}
 		j := rest[done]
+		badJobs.Add(1)
 		if timedOut {
 			j.Blocked = true
 		} else {
@@ -186,6 +230,12 @@ func Dispatch(dir, prop, arg string, jobs []*Job, batch, par int, perCase time.D
 		go func() {
 			defer wg.Done()
 			for b := range ch {
+				if badJobs.Load() >= maxBadJobs {
+					for _, j := range b {
+						j.Skipped = true
+					}
+					continue
+				}
 				if err := runBatch(dir, prop, arg, b, perCase, env); err != nil {
 					mu.Lock()
 					if firstErr == nil {
@@ -201,5 +251,8 @@ func Dispatch(dir, prop, arg string, jobs []*Job, batch, par int, perCase time.D
 	}
 	close(ch)
 	wg.Wait()
+	if n := badJobs.Load(); n >= maxBadJobs {
+		fmt.Fprintf(os.Stderr, "verifh %s: %d cases hung or crashed; the remaining cases of this stream were skipped\n", prop, n)
+	}
 	return firstErr
 }
